@@ -108,7 +108,7 @@ def KeylessAggregate(rng):
   return prog, ['Total', 'Stats', 'Share', 'Span'], ['fam_keyless_aggregate']
 
 
-def WithGroundChain(rng):
+def WithGroundChain(rng, e_first=None):
   """E -> W -> G, Main reads W and G; G reads E before W (and the mirrored
   order): exercises WITH tables shared between a grounded predicate and the
   main query."""
@@ -119,7 +119,9 @@ def WithGroundChain(rng):
                        Cmp(Op('>=', y, Lit(N(0))))], True)])
   W = Pred('W', [Rule([('col0', x, ''), ('col1', Op('+', y, Lit(N(1))), '')],
                       [Atom('E', [('col0', x), ('col1', y)])], True)])
-  first, second = (('E', 'W') if rng.random() < 0.5 else ('W', 'E'))
+  if e_first is None:
+    e_first = rng.random() < 0.5
+  first, second = ('E', 'W') if e_first else ('W', 'E')
   G = Pred('G', [Rule([('col0', x, ''), ('col1', z, '')],
                       [Atom(first, [('col0', x), ('col1', y)]),
                        Atom(second, [('col0', x), ('col1', z)])], True)])
@@ -138,5 +140,6 @@ C08_FAMILIES = [
     ('inject_negation_shared', lambda r: InjectNegation(r, True)),
     ('inject_negation_distinct', lambda r: InjectNegation(r, False)),
     ('keyless_aggregate', KeylessAggregate),
-    ('with_ground_chain', WithGroundChain),
+    ('with_ground_chain_e_first', lambda r: WithGroundChain(r, True)),
+    ('with_ground_chain_w_first', lambda r: WithGroundChain(r, False)),
 ]
